@@ -18,6 +18,8 @@ dispatch_data_t dispatch_data_create_with_transform(dispatch_data_t, const struc
 dispatch_queue_attr_t dispatch_queue_attr_make_with_overcommit(dispatch_queue_attr_t, bool);
 extern uint64_t _dispatch_verif_timeout(dispatch_time_t when);
 extern uint64_t _dispatch_verif_time_since_epoch(dispatch_time_t when);
+extern uint64_t _dispatch_verif_dq_op(int op, uint64_t state, uint16_t width, uint64_t arg, uint64_t arg2, uint64_t *new_state);
+extern uint32_t _dispatch_verif_tid_self(void);
 extern unsigned long _dispatch_verif_source_timer_data(uint64_t *target, uint64_t *deadline, uint64_t interval, uint64_t prev);
 extern void _dispatch_verif_queue_peek(dispatch_queue_t dq, uint16_t *width, uint64_t *state, uint32_t *priority, const char **target_label);
 void dispatch_async_and_wait_f(dispatch_queue_t, void*, dispatch_function_t);
@@ -129,6 +131,10 @@ int main(void){
     else if(!strcmp(tok,"AF")){ long i=atol(strtok(NULL," \n")); int f=atoi(strtok(NULL," \n")); printf("%ld\n", idx_of(dispatch_queue_attr_make_with_autorelease_frequency(attr_of(i),(dispatch_autorelease_frequency_t)f))); }
     else if(!strcmp(tok,"CM")){ uint64_t t=strtoull(strtok(NULL," \n"),NULL,10), d=strtoull(strtok(NULL," \n"),NULL,10), iv=strtoull(strtok(NULL," \n"),NULL,10), nw=strtoull(strtok(NULL," \n"),NULL,10); unsigned long pv=strtoul(strtok(NULL," \n"),NULL,10);
       unsigned long r=_dispatch_verif_compute_missed(&t,&d,iv,nw,pv); printf("%lu %" PRIu64 " %" PRIu64 "\n", r, t, d); }
+    else if(!strcmp(tok,"DQ")){ int op=atoi(strtok(NULL," \n")); uint64_t st=strtoull(strtok(NULL," \n"),NULL,10); unsigned w=(unsigned)strtoul(strtok(NULL," \n"),NULL,10);
+      uint64_t a=strtoull(strtok(NULL," \n"),NULL,10), a2=strtoull(strtok(NULL," \n"),NULL,10), nw=0; uint64_t r=_dispatch_verif_dq_op(op,st,(uint16_t)w,a,a2,&nw);
+      uint32_t self=_dispatch_verif_tid_self(); if(op==1 && (nw&0x3fffffffull)==self && (st&0x3fffffffull)==0) nw=(nw&~0x3fffffffull)|1;   /* the caller's lock value -> 1 */
+      printf("%" PRIu64 " %" PRIu64 "\n", r, nw); }
     else if(!strcmp(tok,"TD")){ uint64_t t=strtoull(strtok(NULL," \n"),NULL,10), d=strtoull(strtok(NULL," \n"),NULL,10), iv=strtoull(strtok(NULL," \n"),NULL,10), nw=strtoull(strtok(NULL," \n"),NULL,10); uint64_t pv=strtoull(strtok(NULL," \n"),NULL,10);
       fake_up=nw; fake_mono=nw; fake_wall=nw; fake_clocks=1; unsigned long r=_dispatch_verif_source_timer_data(&t,&d,iv,pv); fake_clocks=0; printf("%lu %" PRIu64 " %" PRIu64 "\n", r, t, d); }
     else if(!strcmp(tok,"QC")){ long i=atol(strtok(NULL," \n")); dispatch_queue_t q=dispatch_queue_create("qc",attr_of(i));
